@@ -59,6 +59,19 @@ def catalogue():
     add("tab-nr-one", "pair", sub(P, "nr : 8", "nr : 1"), "cfg", "a one-row table")
     add("tab-nrho-one", "eam", sub(E, "nrho : 4", "nrho : 1"), "cfg", "a one-row density grid")
     add("tab-dlpoly-not-mult-4", "pair", sub(sub(P, "target : LAMMPS", "target : DL_POLY"), "nr : 8", "nr : 10"), "cfg", "DL_POLY row count not divisible by four")
+    # a step larger than the extent: the DERIVED row count is 1 (validated only after the values have been combined)
+    add("tab-dr-exceeds-cutoff", "pair", sub(P, "cutoff : 4.0\nnr : 8", "cutoff : 1.0\ndr : 2.5"), "cfg", "dr larger than cutoff (one-row grid derived from cutoff/dr)")
+    add("tab-drho-exceeds-cutoff-rho", "eam", sub(E, "cutoff_rho : 2.0\nnrho : 4", "cutoff_rho : 1.0\ndrho : 2.5"), "cfg", "drho larger than cutoff_rho (one-row density grid)")
+    add("tab-dr-exceeds-cutoff-gulp", "pair", sub(sub(P, "target : LAMMPS", "target : GULP"), "cutoff : 4.0\nnr : 8", "cutoff : 1.0\ndr : 2.5"), "cfg", "dr larger than cutoff, target GULP")
+    add("tab-lammps-two-rows", "pair", sub(P, "nr : 8", "nr : 2"), "not-internal", "LAMMPS table of two grid points (one row): accepted or refused, but not an internal error")
+    # placeholders in sections the parser does not list among its 'known' sections but the tabulation reads: [Species], ADP sections
+    add("species-unresolved-placeholder", "eam", sub(E, "Cu.lattice_constant : 3.61", "Cu.lattice_constant : ${nosuch}"), "cfg", "unresolvable ${...} in [Species]")
+    add("species-unresolved-section-placeholder", "eam", sub(E, "Cu.lattice_constant : 3.61", "Cu.lattice_constant : ${Missing:a0}"), "cfg", "${SECTION:KEY} naming a missing section in [Species]")
+    add("species-unterminated-placeholder", "eam", sub(E, "Cu.lattice_constant : 3.61", "Cu.lattice_constant : ${a0"), "cfg", "unterminated ${ in [Species]")
+    add("adp-dipole-unresolved-placeholder", "adp", sub(A, "[EAM-ADP-Dipole]\nAl-Al : as.bornmayer 1.0 0.5", "[EAM-ADP-Dipole]\nAl-Al : as.bornmayer ${nosuch} 0.5"), "cfg", "unresolvable ${...} in [EAM-ADP-Dipole]")
+    add("adp-quadrupole-unresolved-placeholder", "adp", sub(A, "[EAM-ADP-Quadrupole]\nAl-Al : as.bornmayer 2.0 0.5", "[EAM-ADP-Quadrupole]\nAl-Al : as.bornmayer ${nosuch} 0.5"), "cfg", "unresolvable ${...} in [EAM-ADP-Quadrupole]")
+    add("orphan-section-unresolved-placeholder", "pair", P + "\n[Notes]\nremark : ${nosuch}\n", "not-internal", "unresolvable ${...} in a section potable does not interpret")
+    add("table-form-with-parameters", "pair", sub(P, "Mg-O : >=0 tab1", "Mg-O : >=0 tab1 1.0 2.0"), "cfg", "parameters given to a table form")
     add("tab-dlpoly-four-rows", "pair", sub(sub(P, "target : LAMMPS", "target : DL_POLY"), "nr : 8", "nr : 4"), "cfg", "DL_POLY table with four rows (grid increment cutoff/(rows-4) undefined)")
     add("tab-dlpoly-four-rows-by-step", "pair", sub(sub(P, "target : LAMMPS", "target : DL_POLY"), "cutoff : 4.0\nnr : 8", "dr : 0.005\ncutoff : 0.015"), "cfg", "DL_POLY table with four rows given as dr and cutoff")
     # ---- file level
@@ -186,15 +199,15 @@ def check(run):
             run.case(key=(oid, vi), kind="required-%s" % req, sample=dict(operator=oid, what=what, potable_file=cfg) if run.evaluations in (8, 40) else None)
             run.traces += 2
             problems = []
-            if oc[0] != req:
+            if (oc[0] != req) if req != "not-internal" else oc[0].startswith("internal"):
                 problems.append("Configuration().read()/write(): %s%s" % (oc[0], "" if oc[0] in ("ok", "cfg") else " (%s)" % oc[1]))
-            if cli != req:
+            if (cli != req) if req != "not-internal" else cli.startswith("internal"):
                 problems.append("potable: %s" % cli)
             if leftover:
                 problems.append("potable refused the model but left %d characters in OUTPUT_FILE" % len(r["output"]))
             if problems and oid not in seen_fail:
                 seen_fail.add(oid)
-                want = "a configuration error" if req == "cfg" else "acceptance (the reference manual lists it as valid)"
+                want = "a configuration error" if req == "cfg" else ("acceptance (the reference manual lists it as valid)" if req == "ok" else "anything but an internal exception")
                 run.fail("c16:" + oid, "%s: required %s; observed %s" % (what, want, "; ".join(problems)), dict(operator=oid, potable_file=cfg, required=req, api=oc, cli=cli))
     validation_models(run)
 
